@@ -351,6 +351,20 @@ class Interp:
             present = z3.Or([k == kk for kk, _ in m.items]) if m.items else z3.BoolVal(False)
             m.items.append((k, args[2]))
             return SymOpt(z3.simplify(present), Opaque('old name'))
+        if is_(r'^HashMap::<u8, String>::(get|get_mut)::<u8>$'):
+            M(c); m = rd(args[0].cell, args[0].path); k = args[1]
+            k = rd(k.cell, k.path) if isinstance(k, Ref) else k
+            present = z3.Or([k == kk for kk, _ in m.items]) if m.items else z3.BoolVal(False)
+            return SymOpt(z3.simplify(present), Ref([Opaque('name')]))
+        if is_(r'^HashMap::<u8, String>::contains_key::<u8>$'):
+            M(c); m = rd(args[0].cell, args[0].path); k = args[1]
+            k = rd(k.cell, k.path) if isinstance(k, Ref) else k
+            return z3.simplify(z3.Or([k == kk for kk, _ in m.items]) if m.items else z3.BoolVal(False))
+        if is_(r'Option::<.*>::(is_some|is_none)$'):
+            M(c); v = args[0]
+            v = rd(v.cell, v.path) if isinstance(v, Ref) else v
+            some = v.is_some if isinstance(v, SymOpt) else z3.BoolVal(v.name == 'Some')
+            return some if c.endswith('is_some') else z3.Not(some)
         if is_(r'Option::<.*>::unwrap$'):
             M(c); v = args[0]
             if isinstance(v, SymOpt):
